@@ -1,9 +1,10 @@
 package main
 
 import (
-	"encoding/binary"
 	"bytes"
+	"encoding/binary"
 	"fmt"
+	"strings"
 
 	lz4 "github.com/pierrec/lz4/v4"
 
@@ -83,6 +84,19 @@ func buildSeeds(c *Ctx, withLarge bool) []seedFrame {
 			return
 		}
 		pf, perr := ref.ParseFrame(frame, ref.ParseOpts{EnforceBlockMax: true})
+		if perr == nil && strings.HasPrefix(name, "readfrom-exact-multiple") && pf.EmptyStored == 0 {
+			// Frames with an empty stored block (word 0x80000000) exist in the wild: older versions of
+			// this library's ReadFrom wrote one for inputs that are a multiple of the block size.  The
+			// Reader-side checks keep that seed whatever the Writer under test does: the block is put in
+			// front of the end mark by hand.
+			ins := []byte{0, 0, 0, 0x80}
+			if pf.BlockChecksum {
+				ins = binary.LittleEndian.AppendUint32(ins, ref.XXH32(nil))
+			}
+			frame = append(append(append([]byte(nil), frame[:pf.EndMarkOff]...), ins...), frame[pf.EndMarkOff:]...)
+			pf, perr = ref.ParseFrame(frame, ref.ParseOpts{EnforceBlockMax: true})
+			c.Count("seeds_with_hand_made_empty_stored_block", 1)
+		}
 		if perr != nil || !bytes.Equal(pf.Content, input) || pf.Consumed != len(frame) {
 			c.Count("seeds_rejected_by_reference", 1)
 			return
